@@ -1,4 +1,4 @@
-import Ledger.Proofs.CoreHistory
+import Ledger.Proofs.CoreReads
 
 /-!
 C01 — Double-entry conservation per asset.
@@ -53,5 +53,26 @@ example : balanceAt
     [{ id := 1, postings := [⟨"world", "a", 10, "USD"⟩], timestamp := 5, insertedAt := 7 },
      { id := 2, postings := [⟨"a", "b", 4, "USD"⟩], timestamp := 1, insertedAt := 8 }]
     { oot := some 2, pit := some 6 } .effective ("a", "USD") = 10 := by decide
+
+/-- Aggregated balances (empty filter, no point in time: `sum(input), sum(output)` of the
+    `accounts_volumes` rows grouped by asset — `Spec.aggregatedVolumes`, a hand-written image
+    of the query): every asset row has input = output, i.e. balance zero. -/
+theorem conservation_aggregated (ops : List StoreOp) (st : Store) (h : runOps ops = .ok st) (s : String)
+    (v : Volumes) (hv : (aggregatedVolumes st.accountsVolumes).get? s = some v) : v.balance = 0 := by
+  have := aggregated_balanced h s v hv
+  simp only [Volumes.balance]; omega
+
+/-- Aggregated balances at a point in time / window (sum over a duplicate-free account list
+    covering the history): balance zero per asset, both date modes. -/
+theorem conservation_aggregated_pit (txs : List TxRec) (w : Window) (mode : DateMode) (s : String)
+    (accts : List String) (hn : accts.Nodup)
+    (hc : ∀ p ∈ allPostings txs, p.source ∈ accts ∧ p.destination ∈ accts) :
+    (aggregatedAt txs w mode accts s).balance = 0 := by
+  unfold aggregatedAt
+  rw [foldl_add_volumesAt, conservation_pit txs w mode s accts hn hc]
+  rfl
+
+example : (runOps [.commit { postings := [⟨"world", "a", 10, "USD"⟩, ⟨"a", "b", 4, "EUR"⟩], timestamp := 5, insertedAt := 7 }]).toOption.map
+    (fun st => aggregatedVolumes st.accountsVolumes) = some [("EUR", ⟨4, 4⟩), ("USD", ⟨10, 10⟩)] := by decide
 
 end Ledger.C01
